@@ -36,6 +36,28 @@ Extensions used by C17 (each is off unless the spec asks for it):
 * spec["ignore_calls"] = ["log.debug"]: such a call statement is skipped (logging; its arguments are not evaluated).
 * a while-slice {"name", "while_var", "params", "objects"}: the statement `<while_var> = ...` immediately followed by
   `while <while_var> is not None:` at the top level of the function, as a synthetic function.
+
+Extensions used by C18 (karyogram.py; each is off unless the spec asks for it, except the purely additive forms):
+* always (formerly rejected): dict literals (`EDict`), `assert e` without message (= if not e: raise AssertionError),
+  `for i, x in enumerate(e)` (`EEnumerate`), `x.copy()` (`ECopy`: lists and dicts are values), a store through several
+  subscripts `x[i][j][k] = e` (`SSetPath`: e first, then the indices).  Such a store into a name that an enclosing for
+  loop iterates over (the loop variables then hold the OLD elements) is accepted only if the last subscript is a string
+  literal K and, inside that loop nest, the loop variables bound from the iterated value are only read through a string
+  literal subscript other than K, or iterated over in turn (so the stale copies are never observed).
+* spec["text"] = True: a string literal is its code points (`EText` / `VText`: == by content, len, slices, `a in b` =
+  substring); otherwise an opaque token (`EStr`).
+* spec["ext_methods"] = ["strip", "split", ...]: `e.m(args)` for such an m (e not a declared state object) is a call of
+  the Section variable `extm_<m> : list val -> res val` on (value of e) :: argument values - any function of them;
+  spec["ext_builtins"] = ["int", "float"]: `int(e)` / `float(e)` likewise (`extb_<f>`); spec["ext_dotted"] =
+  ["os.path.exists", "open"]: calls of these dotted names likewise (`extc_<name with _ for .>`).
+* spec["float_add"] = True: `a + b` where a or b is a float literal is a call of the Section variable `fadd` on the two
+  values (binary64 addition is not modelled: any function).
+* spec["exit_calls"] = ["sys.exit"]: such a call statement raises SystemExit (kind 10; the status is not modelled).
+* spec["with_open"] = True: `with open(...) as f: body` = `f = open(...)` (the external "open": what iterating over the
+  file yields, as a list) followed by body (closing the file has no effect the model can see).
+* spec["allow_defaults"] = True: parameters may have constant defaults (every translated call passes all arguments).
+* spec["rhs_first_stores"] = True: `x[i] = e` is emitted as `SSetPath` too (e evaluated before i, as Python does;
+  the older `SSetIdx` evaluates i first, which only matters when both can raise).
 """
 import ast
 import os
@@ -78,6 +100,15 @@ class Ctx:
         self.outputs = dict(spec.get("outputs", {}))
         self.ignore_calls = set(spec.get("ignore_calls", []))
         self.method_owner = {}          # translated method name -> class name
+        self.text = bool(spec.get("text"))
+        self.ext_methods = list(spec.get("ext_methods", []))
+        self.ext_builtins = list(spec.get("ext_builtins", []))
+        self.ext_dotted = list(spec.get("ext_dotted", []))
+        self.float_add = bool(spec.get("float_add"))
+        self.exit_calls = set(spec.get("exit_calls", []))
+        self.with_open = bool(spec.get("with_open"))
+        self.allow_defaults = bool(spec.get("allow_defaults"))
+        self.rhs_first = bool(spec.get("rhs_first_stores"))
 
 
 def parse_state_class(node, cid, attrs):
@@ -158,9 +189,11 @@ class FunTranslator:
         self.ctx = ctx or Ctx()
         self.objects = dict(objects or {})   # name -> state class name (the receiver of method calls)
         a = node.args
-        if a.vararg or a.kwarg or a.kwonlyargs or a.defaults or a.posonlyargs or node.decorator_list:
+        defaults_ok = not a.defaults or (self.ctx.allow_defaults and all(isinstance(d, ast.Constant) for d in a.defaults))
+        if a.vararg or a.kwarg or a.kwonlyargs or not defaults_ok or a.posonlyargs or node.decorator_list:
             _bad(node, "unsupported signature")
         self.params = [x.arg for x in a.args]
+        self.for_stack = []
         self.locals = []
         self.mutated = set()
         self.tmp = 0
@@ -199,6 +232,12 @@ class FunTranslator:
         fr = Fraction(x)
         return f"(EFloat (Qmake {cz(fr.numerator)} {fr.denominator}%positive))"
 
+    @staticmethod
+    def is_float_lit(e):
+        if isinstance(e, ast.UnaryOp) and isinstance(e.op, ast.USub):
+            e = e.operand
+        return isinstance(e, ast.Constant) and isinstance(e.value, float)
+
     def no_eq_override(self, node):
         for ci in self.classes.values():
             if any(m in ci.getters or m in ci.methods for m in ("__eq__", "__ne__", "__contains__")):
@@ -225,6 +264,8 @@ class FunTranslator:
             if isinstance(e.value, int):
                 return f"(EInt {cz(e.value)})"
             if isinstance(e.value, str):
+                if self.ctx.text:
+                    return f"(EText {clist(cz(ord(c)) for c in e.value)})"
                 return f"(EStr {cz(self.strtab.setdefault(e.value, 1000 + len(self.strtab)))})"
             if isinstance(e.value, float):
                 return self.float_lit(e, e.value)
@@ -235,6 +276,8 @@ class FunTranslator:
             ops = {ast.Add: "Add", ast.Sub: "Sub", ast.Mult: "Mul", ast.FloorDiv: "FloorDiv", ast.Mod: "Mod"}
             if isinstance(e.op, ast.Div) and self.ctx.float_div:
                 return f"(ECall {cstr('$truediv')} {clist([self.expr(e.left), self.expr(e.right)])})"
+            if isinstance(e.op, ast.Add) and self.ctx.float_add and (self.is_float_lit(e.left) or self.is_float_lit(e.right)):
+                return f"(ECall {cstr('$fadd')} {clist([self.expr(e.left), self.expr(e.right)])})"
             if type(e.op) not in ops:
                 _bad(e, f"operator {type(e.op).__name__}")
             return f"(EBin {ops[type(e.op)]} {self.expr(e.left)} {self.expr(e.right)})"
@@ -284,6 +327,10 @@ class FunTranslator:
             return f"(ETuple {clist(self.expr(x) for x in e.elts)})"
         if isinstance(e, ast.List):
             return f"(EList {clist(self.expr(x) for x in e.elts)})"
+        if isinstance(e, ast.Dict):
+            if any(k is None for k in e.keys):
+                _bad(e, "dict literal with ** unpacking")
+            return f"(EDict {clist(f'({self.expr(k)}, {self.expr(v)})' for k, v in zip(e.keys, e.values))})"
         if isinstance(e, ast.Attribute):
             return f"(EField {self.expr(e.value)} {self.getter_cands(e.attr, e, False)})"
         if isinstance(e, ast.Call):
@@ -303,12 +350,20 @@ class FunTranslator:
                 return f"(EAsArray {o(lo)} {o(hi)} {self.expr(e.args[0])})"
             if e.keywords:
                 _bad(e, "keyword arguments")
+            if isinstance(f, ast.Name) and f.id in self.ctx.ext_builtins and len(e.args) == 1 \
+                    and f.id not in self.params and f.id not in self.assigned:
+                return f"(ECall {cstr('$b.' + f.id)} {clist([self.expr(e.args[0])])})"
+            if self.dotted(f) in self.ctx.ext_dotted and self.dotted(f).split(".")[0] not in self.params \
+                    and self.dotted(f).split(".")[0] not in self.assigned:
+                return f"(ECall {cstr('$c.' + self.dotted(f))} {clist(self.expr(x) for x in e.args)})"
             if isinstance(f, ast.Name):
                 if f.id == "len" and len(e.args) == 1:
                     return f"(ELen {self.expr(e.args[0])})"
                 if f.id == "range" and len(e.args) == 1:
                     return f"(ERange {self.expr(e.args[0])})"
                 if f.id == "int" and len(e.args) == 1:
+                    if self.ctx.text:
+                        _bad(e, "int() with strings as text: declare int in ext_builtins (EToInt does not parse text)")
                     return f"(EToInt {self.expr(e.args[0])})"
                 if f.id == "abs" and len(e.args) == 1:
                     return f"(EAbs {self.expr(e.args[0])})"
@@ -341,6 +396,13 @@ class FunTranslator:
                 return f"(ECall {cstr(fi.name)} {clist(self.expr(x) for x in args)})"
             if isinstance(f, ast.Attribute) and f.attr in self.ctx.method_owner:
                 _bad(e, f"call of method {f.attr} on something that is not a declared {self.ctx.method_owner[f.attr]} object")
+            if isinstance(f, ast.Attribute) and f.attr in self.ctx.ext_methods \
+                    and not any(f.attr in ci.getters or f.attr in ci.methods for ci in self.classes.values()) \
+                    and not (isinstance(f.value, ast.Name) and f.value.id in self.objects):
+                return f"(ECall {cstr('$m.' + f.attr)} {clist(self.expr(x) for x in [f.value] + list(e.args))})"
+            if isinstance(f, ast.Attribute) and f.attr == "copy" and not e.args \
+                    and not any("copy" in ci.getters or "copy" in ci.methods for ci in self.classes.values()):
+                return f"(ECopy {self.expr(f.value)})"
             if isinstance(f, ast.Attribute) and not e.args:
                 return f"(EField {self.expr(f.value)} {self.getter_cands(f.attr, e, True)})"
             if isinstance(f, ast.Attribute) and f.attr == "index" and len(e.args) == 1:
@@ -367,6 +429,77 @@ class FunTranslator:
         for it in self.iterating:
             if it == name:
                 _bad(node, f"{name} is mutated while a for loop iterates over it")
+
+    @staticmethod
+    def iter_root(it):
+        """the name a for loop iterates over: through enumerate(...), subscripts and attributes"""
+        if isinstance(it, ast.Call) and isinstance(it.func, ast.Name) and it.func.id == "enumerate" \
+                and len(it.args) == 1 and not it.keywords:
+            it = it.args[0]
+        while isinstance(it, (ast.Subscript, ast.Attribute)):
+            it = it.value
+        return it.id if isinstance(it, ast.Name) else None
+
+    @staticmethod
+    def value_targets(loop):
+        """the names a for loop binds to (parts of) the elements of what it iterates over"""
+        t = loop.target
+        if isinstance(t, ast.Name):
+            return [t.id]
+        is_enum = (isinstance(loop.iter, ast.Call) and isinstance(loop.iter.func, ast.Name)
+                   and loop.iter.func.id == "enumerate")
+        names = [x.id for x in t.elts if isinstance(x, ast.Name)]
+        return names[1:] if is_enum else names
+
+    def check_store_into_iterated(self, s, root, path):
+        """x[..][K] = e while a for loop iterates over x: the loop variables keep the old elements; accepted only when
+        those old elements cannot be observed to differ (see the module docstring)"""
+        last = path[-1]
+        if not (isinstance(last, ast.Constant) and isinstance(last.value, str)):
+            _bad(s, f"{root} is mutated while a for loop iterates over it (last subscript is not a string literal)")
+        key = last.value
+        outer = next(lp for lp in self.for_stack if self.iter_root(lp.iter) == root)
+        stale = set()
+        changed = True
+        while changed:
+            changed = False
+            for lp in [n for n in ast.walk(outer) if isinstance(n, ast.For)]:
+                if self.iter_root(lp.iter) in stale | {root}:
+                    for nm in self.value_targets(lp):
+                        if nm not in stale:
+                            stale.add(nm)
+                            changed = True
+        parent = {}
+        for n in ast.walk(outer):
+            for c in ast.iter_child_nodes(n):
+                parent[c] = n
+        for n in ast.walk(outer):
+            # every store into the iterated value inside the loop nest writes the same string key
+            if isinstance(n, ast.Assign):
+                for t in n.targets:
+                    r = t
+                    while isinstance(r, (ast.Subscript, ast.Attribute)):
+                        r = r.value
+                    if isinstance(r, ast.Name) and r.id == root and isinstance(t, ast.Subscript):
+                        sl = t.slice
+                        if not (isinstance(sl, ast.Constant) and sl.value == key and isinstance(t.value, ast.Subscript)):
+                            _bad(n, f"{root} is mutated in several ways while a for loop iterates over it")
+            if not (isinstance(n, ast.Name) and n.id in stale and isinstance(n.ctx, ast.Load)):
+                continue
+            top = n
+            while isinstance(parent.get(top), ast.Subscript) and parent[top].value is top:
+                top = parent[top]
+            pt = parent.get(top)
+            if isinstance(pt, ast.Call) and isinstance(pt.func, ast.Name) and pt.func.id == "enumerate" \
+                    and isinstance(parent.get(pt), ast.For) and parent[pt].iter is pt and top is n:
+                continue        # for i, y in enumerate(<stale name>)
+            if isinstance(pt, ast.For) and pt.iter is top and top is n:
+                continue        # for y in <stale name>
+            if isinstance(top, ast.Subscript) and isinstance(top.ctx, ast.Load) and isinstance(top.slice, ast.Constant) \
+                    and isinstance(top.slice.value, str) and top.slice.value != key:
+                continue        # <stale name>[...]["another key"]
+            _bad(n, f"{n.id} holds an element of {root}, which is mutated (key {key!r}) inside the loop, and is read "
+                    f"in a way that could observe the old value")
 
     def call_stmt(self, dst, call):
         """dst = f(args) for a translated f, with write-back of the parameters f mutates."""
@@ -472,7 +605,32 @@ class FunTranslator:
             if isinstance(t, ast.Subscript) and isinstance(t.value, ast.Name) and not isinstance(t.slice, ast.Slice):
                 self.name(t.value)
                 self.mark_mutated(t.value.id, s)
+                if self.ctx.rhs_first:
+                    return f"(SSetPath {cstr(t.value.id)} {clist([self.expr(t.slice)])} {self.expr(s.value)})"
                 return f"(SSetIdx {cstr(t.value.id)} {self.expr(t.slice)} {self.expr(s.value)})"
+            if isinstance(t, ast.Subscript) and isinstance(t.value, ast.Subscript):
+                # x[i1]...[in] = e
+                path, root = [], t
+                while isinstance(root, ast.Subscript):
+                    if isinstance(root.slice, ast.Slice):
+                        _bad(s, "store through a slice")
+                    path.append(root.slice)
+                    root = root.value
+                if not isinstance(root, ast.Name):
+                    _bad(s, "store through subscripts of something that is not a name")
+                path.reverse()
+                self.name(root)
+                if root.id in self.iterating:
+                    self.check_store_into_iterated(s, root.id, path)
+                    saved = self.iterating
+                    self.iterating = [x for x in saved if x != root.id]
+                    try:
+                        self.mark_mutated(root.id, s)
+                    finally:
+                        self.iterating = saved
+                else:
+                    self.mark_mutated(root.id, s)
+                return f"(SSetPath {cstr(root.id)} {clist(self.expr(i) for i in path)} {self.expr(s.value)})"
             if isinstance(t, ast.Attribute) and isinstance(t.value, ast.Name) and t.value.id in self.objects \
                     and self.params and t.value.id == self.params[0]:
                 # self.<attr> = e: the object is rebuilt with that attribute replaced.  Only as the last top-level
@@ -498,6 +656,8 @@ class FunTranslator:
             v = s.value
             if isinstance(v, ast.Call) and self.dotted(v.func) in self.ctx.ignore_calls:
                 return "SSkip"
+            if isinstance(v, ast.Call) and self.dotted(v.func) in self.ctx.exit_calls:
+                return f"(SRaise {ERR_KINDS['SystemExit']})"
             if isinstance(v, ast.Call) and isinstance(v.func, ast.Name) and v.func.id in self.ctx.outputs:
                 o = self.ctx.outputs[v.func.id]
                 if v.keywords or any(not isinstance(a, ast.Name) for i, a in enumerate(v.args) if i not in o["args"]):
@@ -534,6 +694,25 @@ class FunTranslator:
             if s.orelse:
                 _bad(s, "while-else")
             return f"(SWhile {self.expr(s.test)}\n {self.block(s.body)})"
+        if isinstance(s, ast.For) and isinstance(s.target, ast.Tuple):
+            # for i, x in enumerate(e): iterate over the (index, element) pairs and unpack
+            t = s.target
+            ok = (not s.orelse and len(t.elts) == 2 and all(isinstance(x, ast.Name) for x in t.elts)
+                  and t.elts[0].id != t.elts[1].id
+                  and isinstance(s.iter, ast.Call) and isinstance(s.iter.func, ast.Name) and s.iter.func.id == "enumerate"
+                  and len(s.iter.args) == 1 and not s.iter.keywords
+                  and "enumerate" not in self.params and "enumerate" not in self.assigned)
+            if not ok:
+                _bad(s, "for-else / loop target that is not a name or `i, x in enumerate(e)`")
+            tmp = self.fresh()
+            it = f"(EEnumerate {self.expr(s.iter.args[0])})"
+            self.iterating.append(self.iter_root(s.iter))
+            self.for_stack.append(s)
+            body = self.block(s.body)
+            self.for_stack.pop()
+            self.iterating.pop()
+            unpack = [f"(SAssign {cstr(x.id)} (EIndex (EVar {cstr(tmp)}) (EInt {k})))" for k, x in enumerate(t.elts)]
+            return f"(SFor {cstr(tmp)} {it}\n (SSeq {unpack[0]} (SSeq {unpack[1]}\n {body})))"
         if isinstance(s, ast.For):
             if s.orelse or not isinstance(s.target, ast.Name):
                 _bad(s, "for-else / non-name loop target")
@@ -542,9 +721,24 @@ class FunTranslator:
             while isinstance(root, (ast.Subscript, ast.Attribute)):
                 root = root.value
             self.iterating.append(root.id if isinstance(root, ast.Name) else None)
+            self.for_stack.append(s)
             body = self.block(s.body)
+            self.for_stack.pop()
             self.iterating.pop()
             return f"(SFor {cstr(s.target.id)} {it}\n {body})"
+        if isinstance(s, ast.With):
+            ok = (self.ctx.with_open and len(s.items) == 1 and isinstance(s.items[0].optional_vars, ast.Name)
+                  and isinstance(s.items[0].context_expr, ast.Call) and isinstance(s.items[0].context_expr.func, ast.Name)
+                  and s.items[0].context_expr.func.id == "open" and "open" in self.ctx.ext_dotted
+                  and "open" not in self.params and "open" not in self.assigned)
+            if not ok:
+                _bad(s, "with statement other than `with open(...) as f:`")
+            v = s.items[0].optional_vars.id
+            return f"(SSeq (SAssign {cstr(v)} {self.expr(s.items[0].context_expr)})\n {self.block(s.body)})"
+        if isinstance(s, ast.Assert):
+            if s.msg is not None or self.is_fun_call(s.test):
+                _bad(s, "assert with a message / with a call that mutates")
+            return f"(SIf {self.expr(s.test)} SSkip (SRaise {ERR_KINDS['AssertionError']}))"
         if isinstance(s, ast.Return):
             if s.value is None:
                 return "(SReturn ENone)"
@@ -575,9 +769,20 @@ class FunTranslator:
                 t = n.target.id
             elif isinstance(n, ast.For) and isinstance(n.target, ast.Name):
                 t = n.target.id
+            elif isinstance(n, ast.With) and self.ctx.with_open:
+                for it in n.items:
+                    if isinstance(it.optional_vars, ast.Name):
+                        t = it.optional_vars.id
             elif isinstance(n, (ast.FunctionDef, ast.Lambda, ast.ListComp, ast.GeneratorExp, ast.DictComp,
                                 ast.SetComp, ast.Global, ast.Nonlocal, ast.With, ast.Try)) and n is not self.node:
                 _bad(n, f"{type(n).__name__} inside a translated function")
+            if isinstance(n, ast.For) and isinstance(n.target, ast.Tuple):
+                for x in n.target.elts:
+                    if isinstance(x, ast.Name):
+                        if x.id in self.params:
+                            self.assigned_params.add(x.id)
+                        elif x.id not in names:
+                            names.append(x.id)
             if isinstance(n, ast.Assign) and len(n.targets) == 1 and isinstance(n.targets[0], ast.Tuple):
                 for x in n.targets[0].elts:
                     if isinstance(x, ast.Name) and x.id not in names and x.id not in self.params:
@@ -599,6 +804,10 @@ class FunTranslator:
         for n in ast.walk(self.node):
             if isinstance(n, ast.For) and isinstance(n.target, ast.Name):
                 al.add(n.target.id)
+            elif isinstance(n, ast.For) and isinstance(n.target, ast.Tuple):
+                for x in n.target.elts:
+                    if isinstance(x, ast.Name):
+                        al.add(x.id)
             elif isinstance(n, ast.Assign) and len(n.targets) == 1 and isinstance(n.targets[0], ast.Name) \
                     and isinstance(n.value, (ast.Subscript, ast.Name, ast.Attribute)):
                 if isinstance(n.value, ast.Subscript) and isinstance(n.value.slice, ast.Slice):
@@ -730,7 +939,7 @@ def translate(spec, repo):
     classes, funs, strtab = {}, {}, {}
     out = ["(* GENERATED by harness/pytrans.py from the current source of the repository - do not edit *)",
            "From HV Require Import Prelude MiniPy.", "From Coq Require Import String" +
-           (" QArith" if ctx.float_div else "") + ".",
+           (" QArith" if ctx.float_div or ctx.float_add else "") + ".",
            "Open Scope string_scope.", "Open Scope Z_scope.", ""]
     for rel, cname, cid in spec.get("classes", []):
         ci = parse_class(top(rel, ast.ClassDef, cname), cid)
@@ -753,7 +962,19 @@ def translate(spec, repo):
             _bad(node, f"external {fname}: unsupported signature")
         funs[fname] = FunInfo(fname, [x.arg for x in a.args], set())
         externals.append(fname)
-    section = ctx.float_div or bool(externals)
+    def cident(x):
+        return "".join(c if c.isalnum() else "_" for c in x)
+
+    # further untranslated operations (C18): (key in the function table, Section variable, comment)
+    extra = [("$m." + m, "extm_" + cident(m), f"<e>.{m}(...): the method of a built-in value, on (e, arguments)")
+             for m in ctx.ext_methods]
+    extra += [("$b." + b, "extb_" + cident(b), f"{b}(e)") for b in ctx.ext_builtins]
+    extra += [("$c." + d, "extc_" + cident(d), f"{d}(...)") for d in ctx.ext_dotted]
+    if ctx.float_add:
+        extra.append(("$fadd", "fadd", "a + b with a float literal operand (binary64 addition is not modelled)"))
+    if len({v for _, v, _ in extra}) != len(extra):
+        raise Untranslatable("two untranslated operations share a Section variable name")
+    section = ctx.float_div or bool(externals) or bool(extra)
     prev_ft = "ft_empty"
     if section:
         out.append("Section Gen.")
@@ -763,7 +984,12 @@ def translate(spec, repo):
         for fname in externals:
             out.append(f"(* {fname}({', '.join(funs[fname].params)}): not translated; any function of the argument values *)")
             out.append(f"Variable ext_{fname} : list val -> res val.")
+        for key, var, what in extra:
+            out.append(f"(* {what}: not translated; any function of the argument values *)")
+            out.append(f"Variable {var} : list val -> res val.")
         base = "ft_empty"
+        for key, var, what in reversed(extra):
+            base = f"(ft_add {cstr(key)} (ext_fn {var}) {base})"
         for fname in reversed(externals):
             base = f"(ft_add {cstr(fname)} (ext_fn ext_{fname}) {base})"
         if ctx.float_div:
